@@ -558,7 +558,7 @@ class Enumeration(Base):
 
     # Bounds for unsigned 32-bit integers
     MIN = 0
-    MAX = 4294967296
+    MAX = 4294967295
 
     def __init__(self, enum, value=None, tag=enums.Tags.DEFAULT):
         """
@@ -1051,7 +1051,7 @@ class Interval(Base):
 
     # Bounds for unsigned 32-bit integers
     MIN = 0
-    MAX = 4294967296
+    MAX = 4294967295
 
     def __init__(self, value=0, tag=enums.Tags.DEFAULT):
         super(Interval, self).__init__(tag, type=enums.Types.INTERVAL)
